@@ -10,8 +10,13 @@ import Dashu.Props.GenBitsMixed
 import Dashu.Props.GenShiftHeap
 import Dashu.Props.GenBitsHeap
 import Dashu.Props.GenBitOpsHeap
+import Dashu.Props.GenReprOnes
+import Dashu.Props.GenBitDispatch
+import Dashu.Props.GenNextPow2
+import Dashu.Props.GenIntBits
+import Dashu.Props.GenShiftDispatch
 /-! C09: axioms of every theorem of the Tie-A / link theorem modules of the property in ONE file (one Lean start instead of
-    eight): Props/{GenBits, GenIntOps, GenMath, GenBitsSmall, C09Shift, GenShift, GenBitsPrim, GenScans, GenBitsMixed, GenShiftHeap, GenBitsHeap, GenBitOpsHeap}.  The per-module audit
+    eight): Props/{GenBits, GenIntOps, GenMath, GenBitsSmall, C09Shift, GenShift, GenBitsPrim, GenScans, GenBitsMixed, GenShiftHeap, GenBitsHeap, GenBitOpsHeap, GenReprOnes, GenBitDispatch, GenNextPow2, GenIntBits, GenShiftDispatch}.  The per-module audit
     files stay (other properties use some of them); this file lists the same theorems with fully qualified names. -/
 #print axioms Dashu.Props.GenBits.gen_ibig_bitand
 #print axioms Dashu.Props.GenBits.gen_ibig_bitor
@@ -134,3 +139,39 @@ import Dashu.Props.GenBitOpsHeap
 #print axioms Dashu.Props.GenScans.gen_is_power_of_two_large
 #print axioms Dashu.Props.GenScans.last_le_sum
 #print axioms Dashu.Props.GenScans.gen_count_zeros_large
+#print axioms Dashu.Props.GenReprOnes.gen_repr_ones
+#print axioms Dashu.Props.GenReprOnes.gen_repr_ones_boundary
+#print axioms Dashu.Props.GenBitDispatch.lowest_dword_eq
+#print axioms Dashu.Props.GenBitDispatch.lowest_dword_short
+#print axioms Dashu.Props.GenBitDispatch.zipAnd_comm
+#print axioms Dashu.Props.GenBitDispatch.zipOr_comm
+#print axioms Dashu.Props.GenBitDispatch.zipXor_comm
+#print axioms Dashu.Props.GenBitDispatch.bitand_comm
+#print axioms Dashu.Props.GenBitDispatch.bitor_comm
+#print axioms Dashu.Props.GenBitDispatch.bitxor_comm
+#print axioms Dashu.Props.GenBitDispatch.gen_bitand_dispatch
+#print axioms Dashu.Props.GenBitDispatch.gen_bitor_dispatch
+#print axioms Dashu.Props.GenBitDispatch.gen_bitxor_dispatch
+#print axioms Dashu.Props.GenBitDispatch.gen_and_not_dispatch
+#print axioms Dashu.Props.GenNextPow2.skip_zero
+#print axioms Dashu.Props.GenNextPow2.gen_next_power_of_two_large
+#print axioms Dashu.Props.GenNextPow2.gen_next_power_of_two_large_empty
+#print axioms Dashu.Props.GenNextPow2.gen_next_power_of_two
+#print axioms Dashu.Props.GenScans.tzLarge_le
+#print axioms Dashu.Props.GenScans.tzLargeShiftedByOne_succ_le
+#print axioms Dashu.Props.GenScans.gen_trailing_ones_neg_large
+#print axioms Dashu.Props.GenScans.gen_trailing_ones_neg_large_empty
+#print axioms Dashu.Props.GenIntBits.gen_ibig_bit
+#print axioms Dashu.Props.GenIntBits.gen_ibig_trailing_zeros
+#print axioms Dashu.Props.GenIntBits.gen_ibig_trailing_ones
+#print axioms Dashu.Props.GenIntBits.gen_ibig_not
+#print axioms Dashu.Props.GenIntBits.gen_ibig_not_bits
+#print axioms Dashu.Props.GenIntBits.specK_meets
+#print axioms Dashu.Props.GenIntBits.modelK_meets
+#print axioms Dashu.Props.GenIntBits.model_ibig_bit
+#print axioms Dashu.Props.GenIntBits.model_ibig_trailing
+#print axioms Dashu.Props.GenShiftHeap.gen_shl_dword_repr
+#print axioms Dashu.Props.GenShiftDispatch.gen_shl_dispatch
+#print axioms Dashu.Props.GenShiftDispatch.gen_shr_dispatch
+#print axioms Dashu.Props.GenBitsHeap.gen_set_bit_small
+#print axioms Dashu.Props.GenBitsHeap.gen_set_bit
